@@ -57,6 +57,9 @@ def run(an, cfg):
 
 
 def check(rep, an, tier):
+    # the bounds every clause below speaks of are the REGISTERED ones: registration keeps / replaces exactly what it is given
+    from .C14 import register_bounds_rule
+    register_bounds_rule(rep, an)
     entry = "lsq_linear_adaptive"
     results = []
     for cfg in lsq_configs(tier, AXES):
@@ -84,9 +87,17 @@ def check(rep, an, tier):
                 ok = sense == "Minimize" and bool(a) and a[0] == "sum_squares"
                 want = "Minimize Σ(scale_w(scales−1))²"
                 # (scales − 1): the distance is to one, not to zero
-                minus1 = any(at == "sub" and ops[1].known and ops[1].const == 1 for at, v, ops in R.walk_atoms(expr))
+                subs = [(v, ops) for at, v, ops in R.walk_atoms(expr) if at == "sub" and ops[1].known and ops[1].const == 1]
+                minus1 = bool(subs)
                 rep.check("R-DISPATCH", "unity: distance of the scales to 1", minus1, where=F.where_po(po), construct=text,
                           entry=entry, config=res.config)
+                # … of the SCALES themselves: the weights multiply the difference (scale_w·(s − 1)), they are not applied before 1 is taken off
+                for v_, ops in subs:
+                    wd = "scale_w" in {o.split("|")[0] for o in ops[0].flat().data}
+                    rep.check("R-DISPATCH", "unity: 1 is subtracted from the bare scales", not wd, where=F.where_po(po), construct=text,
+                              entry=entry, config=res.config,
+                              msg="the objective is Σ(scale_w·s − 1)²: its minimiser is s = 1/scale_w, not s = 1 — in-gamut targets are no longer "
+                                  "returned with scales (1, 1) whenever scale_w ≠ 1")
             else:
                 ok = sense == "Maximize" and bool(a) and a[0] == "sum"
                 want = "Maximize Σ scale_w·scales"
@@ -147,6 +158,17 @@ def check(rep, an, tier):
                                           msg=(f"the neutral reference is homogeneous of degree {d.get('neutral_point')} in the supplied "
                                                f"neutral point: a neutral point that does not sum to 1 changes the decomposition "
                                                f"into total and offset") if st is False else "")
+        # the "intensity" of a target is its SIGNED total capture (the same linear functional as Σ of the prediction): not a norm of it
+        norms = [ev for ev in res.events("ext_call") if ev.d["dotted"].endswith("linalg.norm") and ev.d["args"]
+                 and "B" in {o.split("|")[0] for o in ev.d["args"][0].flat().data}]
+        norms = [ev for ev in norms if any(q.endswith(":lsq_linear_adaptive") for q in ev.path[:1]) and len(ev.path) <= 2]
+        for ev in norms:
+            o_ = ev.d["kws"].get("ord") or (ev.d["args"][1] if len(ev.d["args"]) > 1 else None)
+            if o_ is not None and o_.known and o_.const == 1:
+                rep.violated("R-QTY", "the scaled total is the signed total capture of the target", where=ev.loc, construct=ev.text()[:80],
+                             entry=entry, config=res.config,
+                             msg="the target's 'intensity' is taken as an L1 norm (Σ|b|) while the constrained total of the prediction is the signed "
+                                 "sum: for targets with a negative component the total constraint aims at the wrong value")
         F.qty(rep, res, entry)
         urel = U_REL if cfg["K"] else U_CAPTURE
         F.return_types(rep, res, entry, [("X", S("N", "SRC"), U_INT, None), ("scales", None, None, None),
